@@ -24,6 +24,7 @@ No imports outside Infretis.Model: this file is part of the compiled driver.
 -/
 import Infretis.Model.AddToPath
 import Infretis.Model.WF
+import Infretis.Model.ZeroSwap
 
 namespace Infretis.Moves
 open Infretis.Engine
@@ -409,5 +410,42 @@ def wireFencing (v : Variant) (i : WfIn) : Except Err WfOut :=
     else
       .ok { accept := true, status := .ACC, path := t2, returnedOld := false, oldRewritten := false,
             genSucc := succ, genLen := t2.length, timeOrigin := to2, draws := draws }
+
+/-! ### run_md for the two-ensemble moves (zero swaps; move models in `Infretis.ZeroSwap`, package C11)
+
+`run_md` (tis.py:84-104): `_, trials, status = select_shoot(picked)`; then for each
+`(trial, ens_num)`: `if status == "ACC": trial.weights = …; picked[ens_num]["traj"] = trial`.
+The test is on the MOVE status, the same for both ensembles; the trials' own `.status` attributes
+(`Result.st0`, `Result.st1`) are not consulted — `quantis_swap_zero` returns its new [0-] path with
+`.status = "ACC"` when only the second leg (the new [0+] path) fails. -/
+
+structure Md2Out where
+  status : ZeroSwap.Status
+  live0 : List ZeroSwap.Frame          -- frames of picked[-1]["traj"] after run_md
+  live1 : List ZeroSwap.Frame          -- frames of picked[0]["traj"]
+  replaced0 : Bool                     -- picked[-1]["traj"] is the trial object
+  replaced1 : Bool
+deriving Repr, DecidableEq
+
+def runMdCommit2 (r : ZeroSwap.Result) (old0 old1 : List ZeroSwap.Frame) : Md2Out :=
+  { status := r.status,
+    live0 := if r.status = .ACC then r.path0 else old0,
+    live1 := if r.status = .ACC then r.path1 else old1,
+    replaced0 := decide (r.status = .ACC),
+    replaced1 := decide (r.status = .ACC) }
+
+/-- `run_md` with `picked = {-1, 0}` and `tis_set["quantis"]` true -/
+def runMdQuantis (e0 e1 : ZeroSwap.Ens) (old0 old1 : List ZeroSwap.Frame) (scA scB scC scD : ZeroSwap.Script)
+    (acceptAll : Bool) (beta0 beta1 : Rat) (xi p : Rat) : Except ZeroSwap.Err Md2Out :=
+  match ZeroSwap.quantisSwapZero e0 e1 old0 old1 scA scB scC scD acceptAll beta0 beta1 xi p with
+  | .error e => .error e
+  | .ok r => .ok (runMdCommit2 r old0 old1)
+
+/-- `run_md` with `picked = {-1, 0}` and plain RETIS swap -/
+def runMdRetisSwap (e0 e1 : ZeroSwap.Ens) (old0 old1 : List ZeroSwap.Frame) (bw fw : ZeroSwap.Script) (xi : Rat) :
+    Except ZeroSwap.Err Md2Out :=
+  match ZeroSwap.retisSwapZero e0 e1 old0 old1 bw fw xi with
+  | .error e => .error e
+  | .ok r => .ok (runMdCommit2 r old0 old1)
 
 end Infretis.Moves
